@@ -110,17 +110,41 @@ Example c02_parse_int_ex : us_digits is_dec_b (s "1_234") (s "1234") /\ digits_v
 Proof. destruct num_example_wf as (H & _). split; [exact H|reflexivity]. Qed.
 
 (* ParseDecimal (as transcribed in TextNum.v) gives coefficient, exponent and negative zero as the grammar denotes,
-   when the WRITTEN exponent fits int32 *)
-Theorem c02_parse_decimal_except_known : forall n,
+   whenever the exponent of the VALUE (written exponent minus the number of fraction digits) fits int32; the written
+   exponent itself only has to be readable by strconv.ParseInt(_, 10, 64) *)
+Theorem c02_parse_decimal : forall n,
   num_wf n -> num_kind n = NKDecimal ->
-  in_int32 (exp_value (n_exp n)) = true -> -2147483648 <= d_exp (dec_denotes n) ->
+  -2147483648 <= d_exp (dec_denotes n) <= 2147483647 ->
+  written_exp_int64 n = true ->
   parse_decimal_text (num_plain n) = Ok (dec_denotes n).
 Proof. exact parse_decimal_spelling. Qed.
-Print Assumptions c02_parse_decimal_except_known.
-(* the full statement (only the exponent of the value has to fit) is false of the code: 0.5d2147483648 *)
-Theorem c02_parse_decimal_full_refuted : ~ parse_decimal_spelling_full.
-Proof. exact parse_decimal_spelling_full_refuted. Qed.
-Print Assumptions c02_parse_decimal_full_refuted.
+Print Assumptions c02_parse_decimal.
+(* outside that range the literal is refused with an error: no panic, no wrapped exponent (a Go string is shorter
+   than 2^62 bytes) *)
+Theorem c02_parse_decimal_out_of_range : forall n,
+  num_wf n -> num_kind n = NKDecimal ->
+  Z.of_nat (length (n_fp n)) < 4611686018427387904 ->
+  in_int32 (d_exp (dec_denotes n)) = false \/ written_exp_int64 n = false ->
+  parse_decimal_text (num_plain n) = Err.
+Proof. exact parse_decimal_spelling_out_of_range. Qed.
+Print Assumptions c02_parse_decimal_out_of_range.
+(* 0.5d2147483648: the written exponent is beyond int32, the value 5d2147483647 is not *)
+Example c02_parse_decimal_written_over_int32 :
+  num_wf dexp_witness /\ num_kind dexp_witness = NKDecimal /\ num_plain dexp_witness = s "0.5d2147483648" /\
+  in_int32 (exp_value (n_exp dexp_witness)) = false /\ written_exp_int64 dexp_witness = true /\
+  dec_denotes dexp_witness = {| d_coef := 5; d_exp := 2147483647; d_negzero := false |} /\
+  parse_decimal_text (s "0.5d2147483648") = Ok {| d_coef := 5; d_exp := 2147483647; d_negzero := false |}.
+Proof. split; [exact dexp_witness_wf|]. repeat split; reflexivity. Qed.
+(* both ends of the range are read, one step beyond either is an error; so is a written exponent beyond int64 *)
+Example c02_parse_decimal_range_ends :
+  parse_decimal_text (s "1.5d-2147483647") = Ok {| d_coef := 15; d_exp := -2147483648; d_negzero := false |} /\
+  parse_decimal_text (s "1d-2147483648") = Ok {| d_coef := 1; d_exp := -2147483648; d_negzero := false |} /\
+  parse_decimal_text (s "12.345d2147483650") = Ok {| d_coef := 12345; d_exp := 2147483647; d_negzero := false |} /\
+  parse_decimal_text (s "1d2147483647") = Ok {| d_coef := 1; d_exp := 2147483647; d_negzero := false |} /\
+  parse_decimal_text (s "1.5d-2147483648") = Err /\ parse_decimal_text (s "1d-2147483649") = Err /\
+  parse_decimal_text (s "12.345d2147483651") = Err /\ parse_decimal_text (s "1d2147483648") = Err /\
+  parse_decimal_text (s "0.5d9223372036854775808") = Err /\ parse_decimal_text (s "0.5d-9223372036854775809") = Err.
+Proof. vm_compute. repeat split. Qed.
 Example c02_parse_decimal_ex :
   parse_decimal_text (s "-0.00d-5") = Ok {| d_coef := 0; d_exp := -7; d_negzero := true |}.
 Proof. reflexivity. Qed.
